@@ -18,7 +18,10 @@
    those theorems. *)
 From Coq Require Import List ZArith Bool Arith Sorted.
 Import ListNotations.
-From Muduo Require Import Gen_Consts Gen_C16 C16_Model C16_Proofs.
+From Coq.Strings Require Import Byte.
+From Muduo Require Import Conc_Model Conc_Proofs.
+From Muduo Require C20_Model.
+From Muduo Require Import Gen_Consts Gen_C16 C16_Model C16_Proofs C16_MonModel C16_MonProofs C16_NamesModel C16_NamesProofs.
 Local Open Scope Z_scope.
 
 (* ------------------------------------------------------------------ (i) AppendFile, LogFile *)
@@ -157,6 +160,64 @@ Theorem C16_file_names_increase :
   StronglySorted (lex_lt X ltX) (map (fun f => fname X stamp base host pidlog (fst f)) fs).
 Proof. exact file_names_increase. Qed.
 Print Assumptions C16_file_names_increase.
+
+(* the same with the CONCRETE stamp: strftime(".%Y%m%d-%H%M%S.") over gmtime_r = fixed-width decimal fields of
+   C20's break_utc (the regenerated Date/TimeZone code, proved to be the POSIX formula).  No contract left: for
+   every clock value from 1900-01-01 to 2500-12-31 the 17-byte stamp grows lexicographically with the second,
+   hence the file names of one process are strictly increasing byte strings in creation order *)
+Theorem C16_stamp_monotone : forall a b, C20_Model.utc_first <= a -> a < b -> b < C20_Model.utc_end ->
+  length (stamp a) = 17%nat /\ lex_lt byte byte_lt (stamp a) (stamp b).
+Proof. exact (fun a b H1 H2 H3 => conj (stamp_length a) (stamp_mono a b H1 H2 H3)). Qed.
+Print Assumptions C16_stamp_monotone.
+
+Theorem C16_log_file_names_increase :
+  forall (A : Type) (base host pidlog : list byte) (c : cfg) (now : Z) (ops : list (sop_t A)),
+  LogFile_roll_guard_is_gt = true ->
+  let fs := files_in_order (lf_run c (@lf_new A now) ops) in
+  Forall (fun f => C20_Model.utc_first <= fst f < C20_Model.utc_end) fs ->
+  StronglySorted (lex_lt byte byte_lt) (map (fun f => log_file_name base host pidlog (fst f)) fs).
+Proof. exact log_file_names_increase. Qed.
+Print Assumptions C16_log_file_names_increase.
+
+(* ~LogFile (= ~AppendFile = fclose): whatever happened before, the bytes stdio may still hold belong to the
+   current file and are at most its size; the destructor, flush() and a roll (the old file is closed) leave
+   none; the destructor changes no file content and no counter *)
+Theorem C16_logfile_destructor : forall (A : Type) (c : cfg) (now : Z) (ops : list (sop_t A)),
+  let s := lf_run c (lf_new now) ops in
+  match files s with (nm, d) :: _ => 0 <= dirty s <= Z.of_nat (length d) | [] => dirty s = 0 end /\
+  dirty (lf_step c s SClose) = 0 /\ files (lf_step c s SClose) = files s /\ nflush (lf_step c s SClose) = nflush s /\
+  dirty (lf_step c s SFlush) = 0 /\ files (lf_step c s SFlush) = files s /\
+  (forall t, snd (roll t s) = true -> dirty (fst (roll t s)) = 0) /\
+  lf_run c (lf_new now) (ops ++ [SClose]) = lf_step c s SClose.
+Proof. exact logfile_destructor. Qed.
+Print Assumptions C16_logfile_destructor.
+
+(* LogFile with threadSafe = true as a monitor (generic semantics Conc_Model: any number of threads, any
+   programs - records, clock values, short-write patterns are arguments of the calls -, any schedule).
+   In every reachable state the shared LogFile is the SEQUENTIAL model run on the completed calls in the order
+   of their critical sections - so the files in creation order consist of whole chunks in that order: exactly
+   once, never split, never interleaved -; that order restricted to a thread is the thread's program order;
+   the mutex has at most one holder, which is inside its section; nobody ever waits *)
+Theorem C16_logfile_threadsafe :
+  forall (A : Type) (c : cfg) (now : Z) (progs : list (list (lfop A))) (s : lfsys A),
+  0 < now -> Conc_Model.reach (lf_body A c) (lfm_init A now progs) s ->
+  shared s = lf_run c (lf_new now) (ops_of A (Conc_Model.hist s)) /\
+  (forall t, calls_of A t (Conc_Model.hist s) ++ nth t (map prog (threads s)) [] = nth t progs []) /\
+  (exists groups : list (list (list A)),
+     Forall2 (fun f g => snd f = concat g) (files_in_order (shared s)) groups /\
+     concat groups = flat_map (chunk_of A) (ops_of A (Conc_Model.hist s)) /\
+     concat (map snd (files_in_order (shared s))) = concat (flat_map (chunk_of A) (ops_of A (Conc_Model.hist s)))) /\
+  Conc_Proofs.wf _ _ _ s /\ no_waiter A s.
+Proof. exact logfile_threadsafe. Qed.
+Print Assumptions C16_logfile_threadsafe.
+
+Theorem C16_logfile_threadsafe_done :
+  forall (A : Type) (c : cfg) (now : Z) (progs : list (list (lfop A))) (s : lfsys A),
+  0 < now -> Conc_Model.reach (lf_body A c) (lfm_init A now progs) s ->
+  Forall (fun th => prog th = []) (threads s) ->
+  forall t, calls_of A t (Conc_Model.hist s) = nth t progs [].
+Proof. exact logfile_threadsafe_done. Qed.
+Print Assumptions C16_logfile_threadsafe_done.
 
 (* ------------------------------------------------------------------ (ii) AsyncLogging *)
 
@@ -331,6 +392,59 @@ Theorem C16_stop_end_to_end :
 Proof. exact stop_end_to_end. Qed.
 Print Assumptions C16_stop_end_to_end.
 
+(* ... and nothing is left in the stdio buffer: the last LogFile operation was a flush (the LogFile of the
+   back-end is then destroyed, which changes nothing any more) *)
+Theorem C16_stop_nothing_buffered :
+  forall (R A : Type) (bytes : R -> list A) (rlen : R -> Z) (P : params),
+  params_ok P = true -> sites_agree P = true ->
+  forall (progs0 : list (list R)) (s : ast R) (c : cfg) (now : Z) (ops : list (sop_t A)) (chs : list (list A)),
+  p_drain P = true ->
+  Forall (Forall (fun r => rlen r < p_cap P)) progs0 ->
+  reach R rlen P (init progs0) s -> joined (gh s) = true ->
+  evs_ops R A bytes (out (gh s)) ops chs ->
+  dirty (lf_run c (lf_new now) ops) = 0 /\
+  lf_run c (lf_new now) (ops ++ [SClose]) = do_close (lf_run c (lf_new now) ops).
+Proof. exact stop_nothing_buffered. Qed.
+Print Assumptions C16_stop_nothing_buffered.
+
+(* ~AsyncLogging() { if (running_) stop(); }: entering the destructor while the logger runs is calling stop();
+   when it has returned, every record appended before the destructor was entered has been taken by the
+   back-end (taken = hist-at-entry ++ rest), all batches were rendered, the final batch written, the last
+   event is a flush.  If stop() had been called before, the destructor does nothing *)
+Theorem C16_destructor_flushes :
+  forall (R : Type) (rlen : R -> Z) (P : params),
+  params_ok P = true -> sites_agree P = true ->
+  forall (progs0 : list (list R)) (s : ast R) (ls : list label) (s2 : ast R),
+  p_drain P = true ->
+  Forall (Forall (fun r => rlen r < p_cap P)) progs0 -> reach R rlen P (init progs0) s ->
+  (mark (gh s) <> None -> dtor_entry R rlen P s = s) /\
+  (mark (gh s) = None -> run R rlen P (dtor_entry R rlen P s) ls = Some s2 -> joined (gh s2) = true ->
+     exists rest,
+       taken (gh s2) = hist (gh s) ++ rest /\ pc (be s2) = PDone /\
+       out (gh s2) = final_out R P (gh s2) /\
+       dropped (gh s2) = flat_map (dropped_of R P) (batches (gh s2))).
+Proof. exact destructor_flushes. Qed.
+Print Assumptions C16_destructor_flushes.
+
+(* liveness of stop() / of the destructor: from every reachable state in which running_ is false, under EVERY
+   infinite schedule that is fair to the back-end (it names the back-end again and again; labels that are not
+   enabled are skipped; the front-end threads may do anything in between), the back-end reaches its exit; there
+   the join is enabled (unless it has happened) and the state after the join satisfies the stop guarantee *)
+Theorem C16_stop_liveness :
+  forall (R : Type) (rlen : R -> Z) (P : params),
+  params_ok P = true -> sites_agree P = true ->
+  forall (progs0 : list (list R)) (s : ast R) (f : nat -> label),
+  p_drain P = true ->
+  Forall (Forall (fun r => rlen r < p_cap P)) progs0 -> reach R rlen P (init progs0) s ->
+  running (sh s) = false -> fair_to_backend f ->
+  exists n, let s' := exec R rlen P s (sched_prefix f n) in
+    reach R rlen P (init progs0) s' /\ pc (be s') = PDone /\
+    (joined (gh s') = true \/
+     exists s'', step R rlen P s' LJoin = Some s'' /\ joined (gh s'') = true /\ reach R rlen P (init progs0) s'' /\
+                 stop_flushed_full R P s'').
+Proof. exact stop_liveness. Qed.
+Print Assumptions C16_stop_liveness.
+
 (* AsyncLogging on top of LogFile: if the events the back-end produced are performed as LogFile
    operations (a buffer = one append of its bytes), with any clock, roll size, short-write pattern, and
    the stream reports no error, then the files in creation order concatenated are the bytes of the events
@@ -486,3 +600,55 @@ Example C16_stop_terminates_nonvacuous :
   | None => False
   end.
 Proof. vm_compute. repeat split; try reflexivity. discriminate. Qed.
+
+(* the concrete stamp: 1970-01-01 23:59:59 and the next second *)
+Example C16_stamp_nonvacuous :
+  map Base_Bytes.Z_of_byte (stamp 86399) = [46;49;57;55;48;48;49;48;49;45;50;51;53;57;53;57;46] /\
+  map Base_Bytes.Z_of_byte (stamp 86400) = [46;49;57;55;48;48;49;48;50;45;48;48;48;48;48;48;46] /\
+  C20_Model.utc_first <= 86399 /\ 86400 < C20_Model.utc_end.
+Proof. vm_compute. repeat split; try reflexivity; discriminate. Qed.
+
+(* two threads on one thread-safe LogFile: thread 1's section first, then thread 0's two calls; a second
+   thread cannot enter while the mutex is held *)
+Definition mon_progs : list (list (lfop nat)) :=
+  [[MApp [1]%nat [] 1000 1000; MFlush]; [MApp [2; 3]%nat [] 1001 1001]].
+Definition mon_sched : list Conc_Model.label :=
+  [Conc_Model.LAcquire 1; Conc_Model.LBody 1 []; Conc_Model.LAcquire 0; Conc_Model.LBody 0 [];
+   Conc_Model.LAcquire 0; Conc_Model.LBody 0 []].
+Example C16_logfile_threadsafe_nonvacuous :
+  match Conc_Model.run (lf_body nat (default_cfg 1000)) (lfm_init nat 1000 mon_progs) mon_sched with
+  | Some s => files_in_order (shared s) = [(1000, [2; 3; 1]%nat)] /\ nflush (shared s) = 1%nat /\
+              calls_of nat 0 (Conc_Model.hist s) = nth 0 mon_progs [] /\
+              Forall (fun th => prog th = []) (threads s)
+  | None => False
+  end /\
+  match Conc_Model.run (lf_body nat (default_cfg 1000)) (lfm_init nat 1000 mon_progs) [Conc_Model.LAcquire 1] with
+  | Some s => Conc_Model.step (lf_body nat (default_cfg 1000)) s (Conc_Model.LAcquire 0) = None
+  | None => False
+  end.
+Proof. vm_compute. repeat split; try reflexivity. repeat constructor. Qed.
+
+(* destructor while running (state of the F-8 schedule just before stop(), one record still in
+   currentBuffer_): both records are taken and written; liveness: the schedule "always the back-end" is fair
+   and brings the back-end to its exit *)
+Example C16_destructor_nonvacuous :
+  match run nat f8_rlen (with_drain true current_params) (init f8_progs) (firstn 5 f8_sched_drain) with
+  | Some s => mark (gh s) = None /\ recs (cur (sh s)) = [2]%nat /\
+      match run nat f8_rlen (with_drain true current_params) (dtor_entry nat f8_rlen (with_drain true current_params) s)
+                (repeat LBack 5 ++ [LJoin]) with
+      | Some s2 => joined (gh s2) = true /\ taken (gh s2) = hist (gh s) /\ written_of (out (gh s2)) = [1; 2]%nat
+      | None => False end /\
+      pc (be (exec nat f8_rlen (with_drain true current_params)
+                   (dtor_entry nat f8_rlen (with_drain true current_params) s)
+                   (sched_prefix (fun _ => LBack) 5))) = PDone
+  | None => False
+  end /\ fair_to_backend (fun _ => LBack).
+Proof.
+  split; [vm_compute; repeat split; reflexivity|]. intros n. exists n. split; [apply le_n|reflexivity].
+Qed.
+
+(* ~LogFile: 3 bytes were handed to stdio and not flushed; after the destructor none are left *)
+Example C16_logfile_destructor_nonvacuous :
+  dirty (lf_run (default_cfg 1000) (lf_new 1000) [SAppend [1; 2; 3]%nat [] 1000 1000]) = 3 /\
+  dirty (lf_run (default_cfg 1000) (lf_new 1000) [SAppend [1; 2; 3]%nat [] 1000 1000; SClose]) = 0.
+Proof. vm_compute. split; reflexivity. Qed.
